@@ -55,7 +55,7 @@ pub fn units(tier: &str, _seed: u64) -> Vec<String> {
 }
 
 fn ge0(x: F) -> B {
-    k(0.0).le(x)
+    k(0.0).le_(x)
 }
 
 pub fn scenario(u: &Unit) -> String {
@@ -102,8 +102,8 @@ pub fn scenario(u: &Unit) -> String {
                 ob(&tag(&format!("{}>=0", nm)), ge0(x));
             }
             // (3) bounds
-            ob(&tag("epus<=min(use,prod)"), prod.epus_t[t].le(used.epus_t[t].min_(prod.t[t])));
-            ob(&tag("exp.nepus<=nepus"), exp.nepus_t[t].le(used.nepus_t[t]));
+            ob(&tag("epus<=min(use,prod)"), prod.epus_t[t].le_(used.epus_t[t].min_(prod.t[t])));
+            ob(&tag("exp.nepus<=nepus"), exp.nepus_t[t].le_(used.nepus_t[t]));
             // (4) per source
             let mut sum_src = k(0.0);
             let mut sum_epus_src = k(0.0);
@@ -127,7 +127,7 @@ pub fn scenario(u: &Unit) -> String {
                 ob_split(&tag(&format!("src.{}.prod~epus+exp", src)), v[t], eu, ex);
                 ob(&tag(&format!("src.{}.epus>=0", src)), ge0(eu));
                 ob(&tag(&format!("src.{}.exp>=0", src)), ge0(ex));
-                ob(&tag(&format!("src.{}.epus<=prod", src)), eu.le(v[t]));
+                ob(&tag(&format!("src.{}.epus<=prod", src)), eu.le_(v[t]));
                 sum_src = sum_src + v[t];
                 sum_epus_src = sum_epus_src + eu;
             }
@@ -136,8 +136,8 @@ pub fn scenario(u: &Unit) -> String {
                 ob(&tag("sum_src(prod)~prod"), sum_src.approx(prod.t[t], kk, prod.t[t]));
                 // the total used never exceeds what the sources contribute (exact; the total may be
                 // limited to the EPB use, so equality is not required), and the parts stay within production
-                ob(&tag("epus<=sum_src(epus)"), prod.epus_t[t].le(sum_epus_src));
-                ob(&tag("sum_src(epus)<=sum_src(prod)"), sum_epus_src.le(sum_src));
+                ob(&tag("epus<=sum_src(epus)"), prod.epus_t[t].le_(sum_epus_src));
+                ob(&tag("sum_src(epus)<=sum_src(prod)"), sum_epus_src.le_(sum_src));
             }
             // (5) ties to the declared inputs (folded in the implementation's order)
             let mut d_epus = k(0.0);
